@@ -13,7 +13,7 @@ import html
 import re
 
 from dsim import sched, seams, term
-from dsim.programs import Pristine
+from dsim.programs import FAULTS, InjectedFault, InjectedInterrupt, Pristine
 from dsim.seams import SimClock, SimFile
 
 PROP = "C15"
@@ -106,6 +106,28 @@ class C15:
             parts.append(["\n" + rng.choice(PIECES), rng.choice(STYLES)])
         return parts
 
+    def _gen_inner(self, rng, t, cnt, depth):
+        """What may stand inside a capture block: any output operation, also buffered blocks."""
+        r = rng.random()
+        if r < 0.45:
+            return ["print", self._gen_text(rng, t, cnt), ""]
+        if r < 0.55:
+            cnt[0] += 1
+            return ["log", "K%d_%dz %s" % (t, cnt[0], rng.choice(PIECES[:9]))]
+        if r < 0.62:
+            cnt[0] += 1
+            return ["rule", "K%d_%dz" % (t, cnt[0])]
+        if r < 0.7:
+            return ["line", rng.choice([1, 2])]
+        if r < 0.78:
+            cnt[0] += 1
+            return ["out", "K%d_%dz %s" % (t, cnt[0], rng.choice(PIECES)), rng.choice(STYLES)]
+        if r < 0.84:
+            return ["bell"]
+        if depth < 2:
+            return ["block", [self._gen_inner(rng, t, cnt, depth + 1) for _ in range(rng.randint(1, 2))]]
+        return ["print", self._gen_text(rng, t, cnt), ""]
+
     def _gen_op(self, rng, t, cnt, single):
         r = rng.random()
         if r < 0.4:
@@ -128,7 +150,10 @@ class C15:
         if r < 0.75:
             return ["show_cursor", rng.random() < 0.5]
         if r < 0.85:
-            return ["capture", [["print", self._gen_text(rng, t, cnt), ""] for _ in range(rng.randint(1, 2))]]
+            return ["capture", [self._gen_inner(rng, t, cnt, 0) for _ in range(rng.randint(1, 3))],
+                    rng.choice([None, None, None, "exc", "base"])]
+        if r < 0.865:
+            return ["block", [self._gen_inner(rng, t, cnt, 1) for _ in range(rng.randint(1, 3))]]
         if r < 0.88:
             cnt[0] += 1
             return ["markup", "K%d_%dz [bold]b[/bold] [link=https://e.x/?a=1&b=2]l[/link] \\[esc] &lt;" % (t, cnt[0])]
@@ -164,6 +189,15 @@ class C15:
             yield c
         for i in range(len(th)):
             for j, op in enumerate(th[i]):
+                if op[0] in ("capture", "block") and len(op[1]) > 1:
+                    for k in range(len(op[1]) - 1, -1, -1):
+                        c = copy.deepcopy(case)
+                        del c["threads"][i][j][1][k]
+                        yield c
+                if op[0] == "capture" and len(op) > 2 and op[2]:
+                    c = copy.deepcopy(case)
+                    c["threads"][i][j][2] = None
+                    yield c
                 if op[0] == "print" and len(op[1]) > 1:
                     for k in range(len(op[1]) - 1, 0, -1):
                         c = copy.deepcopy(case)
@@ -202,7 +236,7 @@ class Prog:
         self.single = self.n == 1
         self.captured_tokens = set()
         self.mid_exports = []
-        self.probes = {"exports_text": 0, "exports_html": 0, "exports_styled": 0, "captures": 0, "clearing_exports": 0,
+        self.probes = {"captures_left_by_exception": 0, "exports_text": 0, "exports_html": 0, "exports_styled": 0, "captures": 0, "clearing_exports": 0,
                        "control_ops": 0, "links": 0, "html_special_chars": 0, "multi_thread_runs": int(self.n > 1)}
         for t in range(self.n):
             sim.spawn(self._body(t), "c%d" % t)
@@ -261,6 +295,10 @@ class Prog:
             con.clear(op[1])
         elif k == "show_cursor":
             con.show_cursor(op[1])
+        elif k == "block":
+            with con:
+                for x in op[1]:
+                    self._emit(con, x)
         else:
             raise ValueError(k)
 
@@ -279,9 +317,21 @@ class Prog:
                 self.captured_tokens.add(tok)
             n0 = len(self.file.writes)
             me = self.sim.me().tid
-            with con.capture() as cap:
-                for x in op[1]:
-                    self._emit(con, x)
+            how = op[2] if len(op) > 2 else None
+            cap = con.capture()
+            try:
+                with cap:
+                    for x in op[1]:
+                        self._emit(con, x)
+                    if how:
+                        self.probes["captures_left_by_exception"] += 1
+                        self.raised = (InjectedInterrupt if how == "base" else InjectedFault)("C15")
+                        raise self.raised
+                if how:
+                    self._v("capture", "capture-swallowed-exception", "an exception raised inside capture() did not propagate")
+            except FAULTS as e:
+                if e is not self.raised:
+                    self._v("capture", "capture-swallowed-exception", "a different exception came out of capture()")
             got = cap.get()
             if seams.scrub_links(got) != seams.scrub_links(exp):
                 self._v("capture", "capture-wrong", "capture returned %r, expected %r" % (got[:200], exp[:200]))
